@@ -161,12 +161,13 @@ class Scheduler(callbacks.Plugin):
     def _makeCommandFunction(self, network, msg, command, remove=True):
         """Makes a function suitable for scheduling from command."""
         def f():
+            if remove:
+                # First of all: the event has fired, whatever happens below.
+                del self.events[str(f.eventId)]
             # If the network isn't available, pick any other one
             irc = world.getIrc(network) or world.ircs[0]
             tokens = callbacks.tokenize(command,
                 channel=msg.channel, network=irc.network)
-            if remove:
-                del self.events[str(f.eventId)]
             if self._isIgnored(msg):
                 self.log.info('Not running %q: %s is ignored.',
                               command, msg.prefix)
